@@ -215,8 +215,8 @@ func (env *verifEnv) c04ProtectedRoutes(res *verifResult, valid string) []*c04Ca
 				}
 				class := fmt.Sprintf("mask=%d %s auth=%d unauth=%d", mask, method, a.status, u.status)
 				seenClass[class]++
-				if !verifThorough() && seenClass[class] > 2 {
-					continue // quick: two routes of every class (level mask, method, the two answers)
+				if !verifThorough() && seenClass[class] > 1 {
+					continue // quick: one route of every class (level mask, method, the two answers); thorough: all
 				}
 				name := "route:" + method + ":" + target
 				m, tg := method, target
